@@ -1,6 +1,7 @@
 package engine
 
 import (
+	"go/types"
 	"sort"
 
 	"golang.org/x/tools/go/ssa"
@@ -168,9 +169,91 @@ func (g *RootGraph) ReachableFrom(root *ssa.Function) map[*ssa.Function]bool {
 func FuncTableTargets(v ssa.Value) []*ssa.Function {
 	g := tableGlobalOf(v, 6)
 	if g == nil || g.Pkg == nil {
+		// a table written out where it is used: `for _, step := range []func(...){a, b, c}`
+		if al := tableLocalOf(v, 8); al != nil {
+			return localFuncTable(al)
+		}
 		return nil
 	}
 	return FuncTable(g)
+}
+
+func tableLocalOf(v ssa.Value, depth int) *ssa.Alloc {
+	if depth == 0 || v == nil {
+		return nil
+	}
+	switch x := v.(type) {
+	case *ssa.Alloc:
+		if pt, ok := x.Type().Underlying().(*types.Pointer); ok {
+			if _, isArr := pt.Elem().Underlying().(*types.Array); isArr {
+				return x
+			}
+		}
+		return nil
+	case *ssa.Slice:
+		return tableLocalOf(x.X, depth-1)
+	case *ssa.UnOp:
+		return tableLocalOf(x.X, depth-1)
+	case *ssa.IndexAddr:
+		return tableLocalOf(x.X, depth-1)
+	case *ssa.Index:
+		return tableLocalOf(x.X, depth-1)
+	case *ssa.Extract:
+		return tableLocalOf(x.Tuple, depth-1)
+	case *ssa.Next:
+		return tableLocalOf(x.Iter, depth-1)
+	case *ssa.Range:
+		return tableLocalOf(x.X, depth-1)
+	case *ssa.ChangeType:
+		return tableLocalOf(x.X, depth-1)
+	case *ssa.Phi:
+		for _, e := range x.Edges {
+			if a := tableLocalOf(e, depth-1); a != nil {
+				return a
+			}
+		}
+	}
+	return nil
+}
+
+// localFuncTable: the functions stored at constant indices of a local array, in index order (every slot must hold one).
+func localFuncTable(al *ssa.Alloc) []*ssa.Function {
+	byIdx := map[int64]*ssa.Function{}
+	var max int64 = -1
+	other := false
+	for _, r := range *al.Referrers() {
+		ia, ok := r.(*ssa.IndexAddr)
+		if !ok {
+			continue
+		}
+		k, isK := ConstInt(ia.Index)
+		for _, rr := range *ia.Referrers() {
+			st, ok := rr.(*ssa.Store)
+			if !ok || st.Addr != ssa.Value(ia) {
+				continue
+			}
+			fn := funcValueTarget(st.Val)
+			if !isK || fn == nil {
+				other = true
+				continue
+			}
+			byIdx[k] = fn
+			if k > max {
+				max = k
+			}
+		}
+	}
+	if other {
+		return nil
+	}
+	var out []*ssa.Function
+	for i := int64(0); i <= max; i++ {
+		if byIdx[i] == nil {
+			return nil
+		}
+		out = append(out, byIdx[i])
+	}
+	return out
 }
 
 func tableGlobalOf(v ssa.Value, depth int) *ssa.Global {
